@@ -49,6 +49,15 @@ Definition sparse_of_g (g : gmodel) : mdp :=
      R := mtab (gS g) (gA g) (fun s a => drop_small (accum 0 (fun s1 => gR g s a s1 * drop_small (gP g s a s1)) (gS g)));
      gam := ggam g |}.
 
+(* src: SparseModel.hpp:setTransitionFunction (after /repo 17618b4) + Utils/Probability.cpp:
+   isProbability(SparseMatrix3D): the table that will be STORED is validated: every stored entry >= 0
+   and every stored row sums to 1 within 1e-6 (checkDifferentSmall(sum, 1.0)); otherwise the
+   constructor throws std::invalid_argument.  (The input table itself passed the dense validation.) *)
+Definition sparse_accepts (g : gmodel) : bool :=
+  forallb (fun pa => forallb (fun rw => forallb (fun x => negb (Qle_bool x 0 && negb (Qeq_bool x 0))) rw &&
+                                        eqSmall (qsum rw) 1) pa)
+          (P (sparse_of_g g)).
+
 (* a table model seen through the probability-query interface only
    (src: Model.cpp:getTransitionProbability / getExpectedReward(s,a,_) = rewards_(s,a)) *)
 Definition g_of_mdp (m : mdp) : gmodel :=
